@@ -148,6 +148,14 @@ def run(tier, replay=None):
     nout = common.run_harness_json(["c12"], {"notif": True}, timeout=120, crash_ok=True)
     if "_crash" in nout:
         run_.diverge("registry=notification-handlers process-crash", nout["_crash"][:1200], {"cmd": ["c12"], "input": {"notif": True}})
+    # the same new entry registered from several goroutines at once, 1500 times over: it is listed once
+    for sn in (nout.get("same_new") or []) if "_crash" not in nout else []:
+        run_.evaluations += 1
+        run_.nontriv(["same-new", sn["kind"]])
+        if sn["duplicates"] or sn["distinct"] != sn["expected"] or sn["listed"] != sn["expected"]:
+            run_.diverge("registry=%s simultaneous-registration list-wrong" % sn["kind"], "fresh entries, each registered by three goroutines at the same moment: the list shows %d entries, "
+                         "%d distinct (expected %d); duplicates %s" % (sn["listed"], sn["distinct"], sn["expected"], sn["duplicates"]),
+                         {"cmd": ["c12"], "input": {"notif": True}, "observed": sn, "spec": "Registry (a name is listed once)"})
     # an entry registered again with the same descriptor value and a new handler is served by the new handler (Registry: Register replaces)
     for ru in (nout.get("reuse") or []) if "_crash" not in nout else []:
         run_.evaluations += 1
